@@ -1,4 +1,6 @@
 import Anysystem.Props.C01
+#print axioms Anysystem.dumpEvents_sorted
+#print axioms Anysystem.dumpEvents_perm_live
 #print axioms Anysystem.dumpEvents_perm
 #print axioms Anysystem.snapshotEvents_perm
 #print axioms Anysystem.crashNode_eq_ord
